@@ -57,6 +57,31 @@ func sizeLadderSources(r *rand.Rand, thorough bool) []struct{ name, src string }
 		fmt.Fprintf(&b, "print %d\n", 1000+i)
 	}
 	out = append(out, struct{ name, src string }{"input", b.String()})
+	// many statements: code, constants and positions sections beyond the 4096-byte write and read
+	// buffers, constant indices in the three-byte varint class (and the four-byte one when thorough)
+	for _, n := range func() []int {
+		if thorough {
+			return []int{1400, 2400, 5000, 68000}
+		}
+		return []int{1400, 2400, 5000}
+	}() {
+		var b strings.Builder
+		for i := 0; i < n; i++ {
+			fmt.Fprintf(&b, "print %d\n", 100000+i)
+		}
+		// the last constants are used again at the end: operands in the highest class reached
+		fmt.Fprintf(&b, "print %d + %d\n", 100000+n-1, 100000+n-2)
+		out = append(out, struct{ name, src string }{"input", b.String()})
+	}
+	// every varint size boundary in every place of the two tables at the end of a dump: the last
+	// newline (last entry of the line table, the very last bytes of the file), the number of
+	// newlines, the offset of the last instruction
+	for _, b := range []int{239, 240, 241, 2286, 2287, 2288, 67822, 67823, 67824} {
+		out = append(out, struct{ name, src string }{"input", "print 1 #" + strings.Repeat("p", b-9) + "\n"})
+		out = append(out, struct{ name, src string }{"input", "print 1 #" + strings.Repeat("p", b-9) + "\nprint 2"})
+		out = append(out, struct{ name, src string }{"input", strings.Repeat("\n", b) + "print 1 / 0"})
+		out = append(out, struct{ name, src string }{"input", strings.Repeat(" ", b-8) + "print 1 / 0"})
+	}
 	// every float class
 	out = append(out, struct{ name, src string }{"input", "print 0.0 print 5e-324 print 1.7976931348623157e308 print 2.2250738585072014e-308 print 0.1 print 1e22 print -0.0\n"})
 	out = append(out, struct{ name, src string }{"input", "print 9223372036854775807 print -9223372036854775807 - 1 print 0x7fffffffffffffff print -1 print 240 print 241 print 2288 print 67824\n"})
